@@ -124,6 +124,32 @@ def check_shape(case):
                         continue
                     raise Violation(f'get_cell{tuple(args)} outside shape {dims} did not raise IndexError',
                                     expected='IndexError', observed=[list(row['pos'])])
+    if only is None and kind != 'line':
+        # trailing coordinates left out default to 0: get_cell(x) is the cell (x, 0, 0) - never "cell number x"
+        for x in range(-1, ncells + 2):
+            queries += 1
+            try:
+                row = world.get_cell(x)
+            except IndexError:
+                if 0 <= x < ext[0]:
+                    raise Violation(f'get_cell({x}) on shape {dims} raised IndexError for the in-range cell ({x}, 0, 0)')
+                continue
+            if not (0 <= x < ext[0]) or tuple(row['pos']) != (x, 0, 0):
+                raise Violation(f'get_cell({x}) (one argument) on shape {dims}', expected=[x, 0, 0] if 0 <= x < ext[0]
+                                else 'IndexError', observed=list(row['pos']))
+        if kind == 'discrete':
+            for x in range(ext[0]):
+                for y in range(-1, ext[1] + 1):
+                    queries += 1
+                    try:
+                        row = world.get_cell(x, y)
+                    except IndexError:
+                        if 0 <= y < ext[1]:
+                            raise Violation(f'get_cell({x}, {y}) on shape {dims} raised IndexError for an in-range cell')
+                        continue
+                    if not (0 <= y < ext[1]) or tuple(row['pos']) != (x, y, 0):
+                        raise Violation(f'get_cell({x}, {y}) (two arguments) on shape {dims}',
+                                        expected=[x, y, 0] if 0 <= y < ext[1] else 'IndexError', observed=list(row['pos']))
     if only is None:
         # the table is the documented place to change cell values: a lookup afterwards shows the new value (and a row
         # handed out earlier, which the caller scribbles on, does not disturb it)
